@@ -24,8 +24,16 @@ class SimDeadlock(RuntimeError):
     """Nothing ready, nothing scheduled, main coroutine not finished."""
 
 
-class WallClockWatchdog(BaseException):
-    """Raised by SIGALRM: the case ran too long in wall time -> inconclusive."""
+class WallClockWatchdog(KeyboardInterrupt):
+    """Raised by SIGALRM: the case ran too long in wall time -> inconclusive.
+
+    A KeyboardInterrupt subclass on purpose: asyncio stores any other BaseException raised inside a task step on
+    the task (where a library ``except``/``finally`` may swallow it) but re-raises KeyboardInterrupt / SystemExit
+    out of the loop at once."""
+
+
+class VirtualBudgetExceeded(KeyboardInterrupt):
+    """The world's virtual-time budget is used up (main coroutine blocked while background jobs tick) -> inconclusive."""
 
 
 class SimExecutor(concurrent.futures.ThreadPoolExecutor):
